@@ -234,7 +234,7 @@ impl ForeignSrc {
                 in_listfile: f.listed,
             })
             .collect();
-        let mut o = WOptions { version: self.version as u16, shift: 3, hash_size: 16, listfile: t.has_listfile, userdata_prefix: 0, deleted_slots: vec![] };
+        let mut o = WOptions { version: self.version as u16, shift: 3, hash_size: 16, listfile: t.has_listfile, userdata_prefix: 0, deleted_slots: vec![], reuse_deleted: true };
         if self.shape == 3 {
             o.userdata_prefix = 512;
             o.hash_size = 8;
